@@ -14,7 +14,9 @@ import (
 	"fmt"
 	"path/filepath"
 	"reflect"
+	"runtime"
 	"sort"
+	"strconv"
 	"strings"
 	"sync"
 	"time"
@@ -85,6 +87,20 @@ type liveQuery struct {
 	err     error
 	lastReg int // rid registered by the latest run
 	doneRid int // rid current when the latest run returned
+	runReg  int // rid registered so far by the run in progress (0 = none yet)
+}
+
+// goid is the id of the calling goroutine (the rerunner runs a live query's function, its registration
+// and its SELECT on one goroutine).
+func goid() int {
+	var buf [64]byte
+	n := runtime.Stack(buf[:], false)
+	f := strings.Fields(string(buf[:n]))
+	if len(f) < 2 {
+		return -1
+	}
+	id, _ := strconv.Atoi(f[1])
+	return id
 }
 
 type env struct {
@@ -100,6 +116,9 @@ type env struct {
 	processed int
 	broken    string
 	nextRid   int
+	running   map[int]*liveQuery // goroutine -> live query whose function is running on it
+	readEarly []string
+	runMu     sync.Mutex
 }
 
 var envs sync.Map // tracker -> *env
@@ -153,6 +172,7 @@ func hook(point string, args ...interface{}) {
 			if q.key == key {
 				e.ridQuery[rid] = q
 				q.lastReg = rid
+				q.runReg = rid
 			}
 		}
 		e.trace = append(e.trace, tev{kind: "register", rid: rid, table: table, filter: filter})
@@ -395,7 +415,27 @@ func runCase(schema *sqlgen.Schema, c Case) (res *result) {
 	ldb := livesql.NewLiveDB(db)
 	lg := &quietLogger{}
 	vb := livesql.NewVerifBinlog(ldb, database, lg)
-	e := &env{rids: map[interface{}]int{}, ridQuery: map[int]*liveQuery{}, invalid: map[int]bool{}, removed: map[int]bool{}}
+	e := &env{rids: map[interface{}]int{}, ridQuery: map[int]*liveQuery{}, invalid: map[int]bool{}, removed: map[int]bool{},
+		running: map[int]*liveQuery{}}
+	// every SELECT issued from a live query's function: the dependency must already be registered
+	srv.FailNext = func(kind, sql string) error {
+		if kind != "query" || !strings.HasPrefix(strings.ToUpper(strings.TrimSpace(sql)), "SELECT") {
+			return nil
+		}
+		g := goid()
+		e.runMu.Lock()
+		q := e.running[g]
+		e.runMu.Unlock()
+		if q != nil { // issued by a live query's function (never while the oracle holds e.mu)
+			e.mu.Lock()
+			e.trace = append(e.trace, tev{kind: "read", rid: q.runReg})
+			if q.runReg == 0 {
+				e.readEarly = append(e.readEarly, q.key)
+			}
+			e.mu.Unlock()
+		}
+		return nil
+	}
 	res.e = e
 	envs.Store(ldb.VerifTracker(), e)
 	defer envs.Delete(ldb.VerifTracker())
@@ -546,7 +586,17 @@ func runCase(schema *sqlgen.Schema, c Case) (res *result) {
 	for _, q := range e.queries {
 		q := q
 		rr := reactive.NewRerunner(bg, func(ctx context.Context) (interface{}, error) {
+			g := goid()
+			e.mu.Lock()
+			q.runReg = 0
+			e.mu.Unlock()
+			e.runMu.Lock()
+			e.running[g] = q
+			e.runMu.Unlock()
 			rows, err := selectRows(ctx, ldb, schema, q.table, q.filter)
+			e.runMu.Lock()
+			delete(e.running, g)
+			e.runMu.Unlock()
 			e.mu.Lock()
 			q.held, q.err = rows, err
 			q.runs++
@@ -746,6 +796,9 @@ func runCase(schema *sqlgen.Schema, c Case) (res *result) {
 			}
 		}
 	}
+	for _, k := range e.readEarly {
+		res.fail("select-before-dependency-registered", "live query "+k+" ran its SELECT before its dependency was in the tracker")
+	}
 	if e.broken != "" && len(res.failures) == 0 {
 		res.fail("trace-pairing-broken", e.broken)
 	}
@@ -898,6 +951,8 @@ func caseTerm(g *livesim.Terms, schema *sqlgen.Schema, res *result) string {
 			evs = append(evs, fmt.Sprintf("TAdd %d%%nat %s %s", t.rid, vh.CoqString(rg.table), g.Filter(rg.filter)))
 		case "remove":
 			evs = append(evs, fmt.Sprintf("TRemove %d%%nat", t.rid))
+		case "read":
+			evs = append(evs, fmt.Sprintf("TRead %d%%nat", t.rid))
 		case "process":
 			var rows []string
 			for _, row := range t.ev.rows {
